@@ -100,6 +100,13 @@ func goEnv() []string {
 	return env
 }
 
+func repoDir() string {
+	if v := os.Getenv("VERIF_REPO"); v != "" {
+		return v
+	}
+	return "/repo"
+}
+
 func pkgDir(id string) string { return "c" + strings.TrimPrefix(strings.ToLower(id), "c") }
 
 type childRun struct {
@@ -137,10 +144,34 @@ func check(id, tier string, only int) int {
 	}
 	seed := mon.Seed()
 	bdir := filepath.Join(verifDir, ".build", id+"-"+tier)
+	evidenceDir := filepath.Join(verifDir, "evidence")
+	replayDir := filepath.Join(verifDir, "replays")
+	// VERIF_REPO: run against another copy of dapr/kit (scratch worktree with a
+	// mutation applied). Nothing registered in MANIFEST.json uses this; evidence
+	// and replays of such a run stay under .build.
+	altRepo := os.Getenv("VERIF_REPO")
+	if altRepo != "" {
+		bdir = filepath.Join(verifDir, ".build", fmt.Sprintf("%s-%s-alt-%s", id, tier, sanitize(altRepo)))
+		evidenceDir = filepath.Join(bdir, "evidence")
+		replayDir = filepath.Join(bdir, "replays")
+	}
 	os.RemoveAll(bdir)
 	os.MkdirAll(bdir, 0o755)
-	os.MkdirAll(filepath.Join(verifDir, "evidence"), 0o755)
-	if old, _ := filepath.Glob(filepath.Join(verifDir, "replays", id+"-"+tier+"-*.json")); only < 0 {
+	os.MkdirAll(evidenceDir, 0o755)
+	modfileArg := ""
+	if altRepo != "" {
+		gm, err := os.ReadFile(filepath.Join(harnessDir, "go.mod"))
+		if err != nil {
+			fmt.Println("BROKEN cannot read go.mod")
+			return 2
+		}
+		gm = []byte(strings.Replace(string(gm), "=> /repo", "=> "+altRepo, 1))
+		os.WriteFile(filepath.Join(bdir, "go.mod"), gm, 0o644)
+		gs, _ := os.ReadFile(filepath.Join(harnessDir, "go.sum"))
+		os.WriteFile(filepath.Join(bdir, "go.sum"), gs, 0o644)
+		modfileArg = "-modfile=" + filepath.Join(bdir, "go.mod")
+	}
+	if old, _ := filepath.Glob(filepath.Join(replayDir, id+"-"+tier+"-*.json")); only < 0 {
 		for _, f := range old {
 			os.Remove(f)
 		}
@@ -157,6 +188,9 @@ func check(id, tier string, only int) int {
 	}
 	for _, bl := range builds {
 		args := []string{"test", "-c", "-vet=off", "-tags", "verif,unit", "-o", bl.bin}
+		if modfileArg != "" {
+			args = append(args, modfileArg)
+		}
 		if bl.race {
 			args = append(args, "-race")
 		}
@@ -307,14 +341,14 @@ func check(id, tier string, only int) int {
 
 	// ---- verdict
 	exit := 0
-	os.MkdirAll(filepath.Join(verifDir, "replays"), 0o755)
+	os.MkdirAll(replayDir, 0o755)
 	seenSig := map[string]int{}
 	for _, v := range unlisted {
 		seenSig[v.Sig]++
 		if seenSig[v.Sig] > 2 {
 			continue
 		}
-		path := filepath.Join(verifDir, "replays", fmt.Sprintf("%s-%s-seed%d-%s-%d.json", id, tier, seed, sanitize(v.Sig), seenSig[v.Sig]))
+		path := filepath.Join(replayDir, fmt.Sprintf("%s-%s-seed%d-%s-%d.json", id, tier, seed, sanitize(v.Sig), seenSig[v.Sig]))
 		rb, _ := json.MarshalIndent(map[string]any{"property": id, "tier": tier, "seed": seed, "violation": v}, "", " ")
 		os.WriteFile(path, rb, 0o644)
 		fmt.Printf("VIOLATION property=%s replay=%s sig=%s %s\n", id, path, v.Sig, oneLine(v.Msg))
@@ -393,7 +427,7 @@ func check(id, tier string, only int) int {
 	}
 	if only < 0 {
 		eb, _ := json.MarshalIndent(ev, "", " ")
-		os.WriteFile(filepath.Join(verifDir, "evidence", id+".json"), append(eb, '\n'), 0o644)
+		os.WriteFile(filepath.Join(evidenceDir, id+".json"), append(eb, '\n'), 0o644)
 	}
 	verdict := "HELD"
 	if exit != 0 {
@@ -401,7 +435,7 @@ func check(id, tier string, only int) int {
 	}
 	fmt.Printf("%s property=%s tier=%s seed=%d evaluations=%d distinct_nontrivial=%d inconclusive=%d known=%d violations=%d wall=%.1fs\n",
 		verdict, id, tier, seed, evals, int64(len(distinct))+distinctExtra, inconcCount, len(knownHit), unlistedTotal, time.Since(start).Seconds())
-	if exit == 0 {
+	if exit == 0 && altRepo == "" {
 		os.RemoveAll(bdir)
 	}
 	return exit
@@ -464,6 +498,7 @@ func runChild(id, tier string, seed uint64, bdir, bin string, r *childRun, timeo
 			"VERIF_OUT="+out,
 			"VERIF_JOURNAL="+journal,
 			"VERIF_BUILD="+r.build,
+			"VERIF_REPO_DIR="+repoDir(),
 			"VERIF_SCRATCH="+filepath.Join("/var/tmp", fmt.Sprintf("verif-%s-%s-%d", id, tag, os.Getpid())),
 			"GORACE=halt_on_error=0 log_path="+filepath.Join(bdir, "race."+tag),
 			"GOTRACEBACK=all",
@@ -756,9 +791,13 @@ func splitRaceSections(blk string) []string {
 // "fixed:" lines suppress nothing.
 func loadKnown(id string) map[string]string {
 	out := map[string]string{}
-	b, err := os.ReadFile(filepath.Join(verifDir, "KNOWN_FINDINGS.txt"))
-	if err != nil {
-		return out
+	b, _ := os.ReadFile(filepath.Join(verifDir, "KNOWN_FINDINGS.txt"))
+	if extra, _ := filepath.Glob(filepath.Join(verifDir, "known.d", "*.txt")); len(extra) > 0 {
+		for _, f := range extra {
+			if eb, err := os.ReadFile(f); err == nil {
+				b = append(append(b, '\n'), eb...)
+			}
+		}
 	}
 	for _, l := range strings.Split(string(b), "\n") {
 		l = strings.TrimSpace(l)
